@@ -9,8 +9,8 @@ use simnet::*;
 use std::collections::{BTreeMap, BTreeSet};
 
 struct Live {
-    /// writer -> virtual time (ns) of its last write for this instance
-    writers: BTreeMap<usize, i64>,
+    /// writer -> (virtual time (ns), slept time (ns)) at its last write for this instance
+    writers: BTreeMap<usize, (i64, i64)>,
     /// (writer, how it left), most recent last
     departures: Vec<(usize, &'static str)>,
     /// last operation of each writer on this instance
@@ -44,6 +44,10 @@ pub async fn scenario(w: World, h: Hist, trace: bool) -> Outcome {
     let mut tie: BTreeMap<(usize, usize), (usize, u32)> = BTreeMap::new();
     let mut shape = vcore::fnv_str(&cfg.class());
     let mut assertions = 0i64;
+    // Time the scenario explicitly slept (the executor was idle, every DDS timer could fire). Virtual
+    // time that merely passed while the participants were busy (clock_tick) does not count towards
+    // "the owner definitely missed its deadline".
+    let mut slept = 0i64;
     let mut contested = 0i64;
     let all = ReadOp { take: false, sel: Sel::All, max: MAX_ALL, ss: SS_ANY, vs: VS_ANY, is: IS_ANY };
 
@@ -56,6 +60,7 @@ pub async fn scenario(w: World, h: Hist, trace: bool) -> Outcome {
         match op {
             Op::Sleep { ms } => {
                 sim.sleep(*ms * MS).await;
+                slept += *ms * MS;
                 continue;
             }
             Op::DeleteWriter { w: wi } => {
@@ -138,7 +143,7 @@ pub async fn scenario(w: World, h: Hist, trace: bool) -> Outcome {
                 handles.insert(key, hd);
             }
         }
-        sim.sleep(2 * MS).await;
+        settle_net(&w).await;
         if trace && std::env::var("RC_NETLOG").is_ok() {
             for r in w.net.take_sent_log().iter().rev().take(400).rev() {
                 out.trace.push(format!("      net {}us {}->{:?} {}", (r.at_ns - EPOCH_NS) / 1000, r.src, r.dsts, r.summary));
@@ -174,12 +179,12 @@ pub async fn scenario(w: World, h: Hist, trace: bool) -> Outcome {
         let mut unsure = false;
         if d_ns > 0 {
             let mut expired = Vec::new();
-            for (v, t) in l.writers.iter() {
+            for (v, (t, sl)) in l.writers.iter() {
                 if *v == wi {
                     continue;
                 }
                 let age = now - *t;
-                if age > 2 * d_ns + 150 * MS {
+                if slept - *sl > 2 * d_ns + 150 * MS {
                     expired.push(*v);
                 } else if age > d_ns - 10 * MS {
                     unsure = true;
@@ -215,6 +220,11 @@ pub async fn scenario(w: World, h: Hist, trace: bool) -> Outcome {
                 shape = vcore::mix(shape, visible as u64 + 2 * (rel + 1) as u64);
                 if !unsure {
                     assertions += 1;
+                    if rel > 0 && !visible && !confirm_absent(&w, &env, &handles, id).await {
+                        out.abandoned = Some(format!("sample w{wi}#{seq} arrived late (harness timing, no verdict)"));
+                        out.stat("late_arrivals(no verdict)", 1);
+                        break 'ops;
+                    }
                     if rel > 0 && !visible {
                         // which stronger-or-equal writer left before?
                         let dep = l.departures.iter().rev().find(|(v, _)| *v != wi).map(|(_, k)| *k);
@@ -279,7 +289,7 @@ pub async fn scenario(w: World, h: Hist, trace: bool) -> Outcome {
                         }
                     }
                 }
-                l.writers.insert(wi, now);
+                l.writers.insert(wi, (now, slept));
                 l.last_op.insert(wi, "write");
                 if !wreg[wi].contains(&key) {
                     wreg[wi].push(key);
